@@ -59,6 +59,12 @@ InvNoDangling == NoDangling(st)
 StepAction == last'.a.a # "none" => StepProps(last'.pre, last'.a, last'.o)
 StepProperty == [][StepAction]_vars
 
+\* Refinement of spec/RegistryProof.tla (whose invariant is proved by TLAPS for every number of peers, features and
+\* steps): every step changes the binding registry by granting one binding to a server feature that has none, or by
+\* removing entries
+RegistryRefines == [][ \/ \E e \in st'.binds : st'.binds = st.binds \cup {e} /\ ~\E b \in st.binds : b.s = e.s
+                       \/ st'.binds \subseteq st.binds ]_vars
+
 \* prefixes selectable from a cfg (Prefix <- PrefixNone)
 PrefixNone == << >>
 Disc(p) == <<[a |-> "connect", p |-> p], [a |-> "discover", p |-> p, ents |-> {"1", "2"}, ack |-> FALSE]>>
